@@ -83,6 +83,17 @@ func (r *run) appImpl(a *appCap, ctx context.Context, call *server.Call) error {
 		return nil
 	}
 	r.appCalls[token] = ac
+	if lc := r.locals[token]; lc != nil && lc.base != nil && !r.hostile {
+		// a local call pipelined on a local question came back to a local capability (the peer answered
+		// the question with one of the Conn's own exports): order of issue must be kept across the
+		// resolution - that is what the embargo is for
+		s.Probe("local_pipelined_call_delivered_locally")
+		if lc.seq+1 <= lc.base.delivered {
+			r.mfail("order", "rpc.go:(*Conn).handleReturn", fmt.Sprintf("local calls pipelined on local call %d: call #%d (token %d) reached the application after a later one (#%d) had", lc.base.token, lc.seq, token, lc.base.delivered-1))
+			return nil
+		}
+		lc.base.delivered = lc.seq + 1
+	}
 	r.started = append(r.started, ac)
 	s.Logf("app cap %d: call token=%d flags=%b starts", a.id, token, flags)
 	// capability received in params pointer 0
